@@ -6,7 +6,8 @@ literal and typed sequences, constant subscripts) under ONE contract:
 
 Both sides are Python (the rewritten tree still is), so the obligation is discharged by TRANSLATION VALIDATION with the same verifier that
 executes the library: the real `ast2ast` runs on the real AST of P; P and the unparsed result are both executed symbolically by pyvc - booleans as
-symbolic bools, integers as symbolic MATHEMATICAL integers (unbounded: no width, no overflow - widths are the business of layers L1/L2) - and for
+symbolic bools, integers as symbolic MATHEMATICAL integers (an argument declared Qint[w] ranges over 0..2^w-1; every intermediate and result is
+unbounded: no width, no overflow - widths are the business of layers L1/L2; branches that contradict the path condition are pruned) - and for
 every pair of paths z3 proves `pc_P and pc_P' => result_P == result_P'`.  A path on which P itself raises (e.g. a name bound on one branch only)
 constrains nothing; a rewritten program that raises NameError is a program the translator rejects (an unbound temporary), not a mistranslation.
 
@@ -68,6 +69,11 @@ def symbolic_args(fd, pyvc, z3):
         if txt.startswith("Qint"):
             v = z3.Int(name)
             hyps.append(v >= 0)
+            try:
+                w = int(txt[5:-1]) if txt.startswith("Qint[") else int(txt[4:])
+                hyps.append(v < 2 ** w)          # an argument of type Qint[w] holds a w-bit value (results and intermediates stay unbounded)
+            except ValueError:
+                pass
             return pyvc.SymZ(v)
         if isinstance(ann, ast.Subscript) and ast.unparse(ann.value) in ("Tuple", "Qlist", "Qmatrix"):
             kind = ast.unparse(ann.value)
@@ -159,6 +165,8 @@ def _job(a):
         return [dict(skip, why=f"not executable as plain Python: {type(ex).__name__}: {ex}"[:120])]
     eng = pyvc.Engine()
     eng.opaque_symbols = False
+    eng.prune = True
+    eng.base_hyps = list(hyps)
     eng.int_uf = True          # bit operators / products of two unknowns as uninterpreted functions: enough to prove two programs EQUAL
     try:
         p0 = eng.explore(lambda vc: (f0, list(args), {}), max_paths=200)
